@@ -113,6 +113,9 @@ DT_CONFIGS = [
     DtConfig("gregorian", "+0530", 0, [(2000, 2, 28, 13, 0), (2003, 12, 31, 11, 30)]),
     DtConfig("gregorian", "-0800", 0, [(2004, 2, 28, 20, 45), (2000, 10, 31, 23, 0)]),
     DtConfig("gregorian", "Z", 2, [(12345, 2, 27, 21, 0), (99, 12, 30, 22, 30)]),
+    # negative years (expanded year digits): the window crosses a year boundary, where the text of the points
+    # sorts the other way round than the instants
+    DtConfig("gregorian", "Z", 2, [(-2000, 12, 31, 21, 0), (-1, 12, 31, 22, 30)]),
     DtConfig("360day", "+0100", 2, [(100000, 12, 29, 20, 0)]),
 ]
 
@@ -172,6 +175,13 @@ def check_dt(st, cfg, base_idx, rot):
                         f"{where} ISO8601Point({sa!r}) does not compare equal to its standard form {s1.value!r}"))
         # --- equality / hash of standardised points
         t1 = ISO8601Point(sb).standardise()
+        # --- the order of the standard forms (what the scheduler compares all the time) follows the instants too
+        rel2 = {"<": s1 < t1, "<=": s1 <= t1, ">": s1 > t1, ">=": s1 >= t1}
+        for op in rel2:
+            if rel2[op] != want[op]:
+                out.append((f"order:{op}:datetime-standard-form",
+                            f"{where} ISO8601Point({s1.value!r}) {op} ISO8601Point({t1.value!r}) is {rel2[op]}, instants "
+                            f"{a}h and {b}h after the base require {want[op]}"))
         if (s1 == t1) != st["eq"] or (hash(s1) == hash(t1)) != st["eq"] or (len({s1, t1}) == 1) != st["eq"]:
             out.append((f"eq-hash:datetime",
                         f"{where} standardised {sa!r} -> {s1.value!r} and {sb!r} -> {t1.value!r}: == is {s1 == t1}, "
@@ -342,7 +352,7 @@ def run(ctx):
     oracle.finish_cov(ctx, evals, nontrivial,
                       "every pair of integer values in the box x every integer interval (2 spelling rotations), and every "
                       "pair of instants 0..DtHi hours after a base x {hours, days, weeks} x multipliers, each realised under "
-                      "all 8 configurations (4 calendars, 4 time zones, expanded years) with rotating bases (month / leap-day "
+                      "all 9 configurations (4 calendars, 4 time zones, expanded years incl. negative years) with rotating bases (month / leap-day "
                       "/ year ends) and spellings (basic, extended, assumed zone, seconds, hour-only, 4 foreign zones); "
                       "non-trivial = the two values differ",
                       samples, exhaustive=True)
